@@ -553,5 +553,45 @@ def r_no_partial_key_memo(chk):
     common.no_partial_key_memo(chk, 'C06.R13', 'pysmi/codegen/symtable.py', 'SymtableCodeGen')
 
 
+def r15_import_map_holds_the_imports_clause(chk, rule='C06.R15'):
+    """which module a referenced object is attributed to is read from the import map: it must hold what the IMPORTS
+    clause (after the documented SMIv1 conversion and the constant imports) says and nothing else"""
+    from rules.C12 import writes_in
+    model = chk.model
+    chk.doc(rule, 'both generators: self._importMap is written in two places only - emptied where genCode / __init__ reset the '
+                  'generator, and filled by the one update([(transOpers(s), module) for s in symbols]) inside '
+                  'genImports\' loop over the (converted) IMPORTS clause.  An entry from any other source (a table of '
+                  'well-known objects, a default) outranks a local definition of the same name, because every reference '
+                  'is attributed through _importMap.get(name, <own module>)')
+    for rel, cname in ((INTER, 'IntermediateCodeGen'), (SYMTAB, 'SymtableCodeGen')):
+        ci = model.cls(rel, cname)
+        n_up = 0
+        for mname, fn in sorted(ci.methods.items()):
+            for attr, kind, node in writes_in(fn):
+                if attr != '_importMap':
+                    continue
+                if kind == 'assign' and isinstance(node.value, (ast.Dict, ast.Call)) and norm(node.value) in ('{}', 'dict()', 'OrderedDict()'):
+                    ok = mname in ('genCode', '__init__', 'reset')
+                    why = 'the map is emptied outside genCode / __init__'
+                elif kind == 'call:clear':
+                    ok = mname in ('genCode', '__init__', 'reset')
+                    why = 'the map is emptied outside genCode / __init__'
+                elif kind == 'call:update' and mname == 'genImports':
+                    n_up += 1
+                    ok = n_up == 1
+                    why = 'a second update of the import map'
+                else:
+                    ok = False
+                    why = 'the import map gets entries that do not come from the IMPORTS clause'
+                chk.ob(rule, '%s.%s/%s' % (cname, mname, norm(node)[:50]), ok, where(ci.mod, node), why)
+        chk.ob(rule, '%s.genImports/fills-the-map' % cname, n_up == 1, where(ci.mod, ci.node), '%d update(s)' % n_up)
+
+
+def r14_reference_lists_reach_the_tree(chk):
+    """shared with C02.R11, restricted to the clauses that carry references between objects"""
+    from rules.C02 import r11_parts_reach_the_tree
+    r11_parts_reach_the_tree(chk, rule='C06.R14', only_lhs=REFERENCE_PRODUCTIONS, floor=3)
+
+
 RULES = [r1_normalisation, r2_table_index, r3_object_lists, r4_compliances, r5_grammar_pairs, r6_template, r7_nodetype,
-         r8_references_reach_the_tree, r9_collectors, r_absent_values_C06_R10, r11_generators_start_clean, r12_names_are_case_sensitive, r_no_partial_key_memo]
+         r8_references_reach_the_tree, r9_collectors, r_absent_values_C06_R10, r11_generators_start_clean, r12_names_are_case_sensitive, r_no_partial_key_memo, r14_reference_lists_reach_the_tree, r15_import_map_holds_the_imports_clause]
